@@ -197,10 +197,10 @@ def run(ctx, replay):
     os.makedirs(scr, exist_ok=True)
     if thorough:
         args = ["--small", 150, "--tour", 30, "--steps", 10, "--q", 4, "--big", 2, "--big-n", 70000, "--big-q", 3,
-                "--enum-every", 1, "--enum-depth2", 30, "--enum-triples", 40, "--findings", 2, "--lut", "--window", 24, "--flushfail", 24]
+                "--enum-every", 1, "--enum-depth2", 30, "--enum-triples", 40, "--findings", 2, "--lut", "--window", 24, "--flushfail", 24, "--twins", 6]
     else:
         args = ["--small", 16, "--tour", 4, "--steps", 8, "--q", 4, "--big", 1, "--big-n", 3000, "--big-q", 4,
-                "--enum-every", 13, "--enum-depth2", 20, "--findings", 2, "--lut", "--window", 4, "--flushfail", 4]
+                "--enum-every", 13, "--enum-depth2", 20, "--findings", 2, "--lut", "--window", 4, "--flushfail", 4, "--twins", 2]
     summ, rc, _ = ctx.run_vdrive(["tagidx", "--seed", ctx.seed, "--out", tr, "--out-findings", trf, "--scratch", scr] + args,
                                  timeout=2400)
     for u in summ["unresolved"]:
